@@ -3,12 +3,83 @@ package world
 import (
 	"bytes"
 	"fmt"
+	"math/big"
 
+	"go.sia.tech/core/consensus"
 	"go.sia.tech/core/types"
+	"verif/ref"
 )
 
+func encV1(t types.Transaction) []byte {
+	var buf bytes.Buffer
+	e := types.NewEncoder(&buf)
+	t.EncodeTo(e)
+	e.Flush()
+	return buf.Bytes()
+}
+
+func workBytes(w consensus.Work) (out [32]byte) {
+	x, _ := new(big.Int).SetString(w.String(), 10)
+	x.FillBytes(out[:])
+	return
+}
+
+func stateFields(s consensus.State) ref.StateFields {
+	n := int(s.Index.Height + 1)
+	if n > 11 {
+		n = 11
+	}
+	return ref.StateFields{
+		Index: s.Index, Timestamps: s.PrevTimestamps[:n], Depth: s.Depth, ChildTarget: s.ChildTarget, TaxRevenue: s.SiafundTaxRevenue,
+		OakTime: s.OakTime, OakTarget: s.OakTarget, FoundationSubsidy: s.FoundationSubsidyAddress, FoundationManagement: s.FoundationManagementAddress,
+		TotalWork: workBytes(s.TotalWork), Difficulty: workBytes(s.Difficulty), OakWork: workBytes(s.OakWork),
+		NumLeaves: s.Elements.NumLeaves, Trees: s.Elements.Trees, Attestations: s.Attestations,
+	}
+}
+
+// wireRate: how often the per-object wire oracles run (1 = always).
+func (w *World) wireRate() int {
+	switch w.cfg.Profile {
+	case "C11", "C12", "C18":
+		return 1
+	}
+	return 5
+}
+
+// truncations feeds sampled proper prefixes of enc to decode; each must fail.
+func (w *World) truncations(kind string, enc []byte, decode func([]byte) error) {
+	if len(enc) == 0 {
+		return
+	}
+	cuts := []int{0, 1, len(enc) - 1, len(enc) / 2}
+	for i := 0; i < 6; i++ {
+		cuts = append(cuts, w.tape.Choose(len(enc)))
+	}
+	if len(enc) <= 400 && w.tape.Chance(1, 4) {
+		cuts = cuts[:0]
+		for i := 0; i < len(enc); i++ {
+			cuts = append(cuts, i)
+		}
+	}
+	for _, c := range cuts {
+		if c < 0 || c >= len(enc) {
+			continue
+		}
+		var err error
+		if p := guard(func() { err = decode(enc[:c]) }); p != "" {
+			w.violate("C10", "decode-truncated-panic", fmt.Sprintf("decoding a %s truncated to %d of %d bytes panicked: %s", kind, c, len(enc), p))
+			return
+		}
+		w.stats.Inc("probe.wire.truncation")
+		if err == nil {
+			w.violate("C11", "truncated-decodes", fmt.Sprintf("a %s encoding truncated to %d of %d bytes decoded without error", kind, c, len(enc)))
+			return
+		}
+	}
+}
+
 // onWire is called for every object at the moment it is put on the simulated
-// network: C11 / C18 round-trip oracles on real traffic.
+// network: C11 / C12 / C18 oracles on real traffic.
 func (w *World) onWire(kind string, v any, enc []byte) {
 	switch kind {
 	case "block":
@@ -22,26 +93,218 @@ func (w *World) onWire(kind string, v any, enc []byte) {
 		if !bytes.Equal(encodeBlock(db), enc) {
 			w.violate("C11", "block-reencode", fmt.Sprintf("re-encoding the decoded block %s gave different bytes", short(b.ID())))
 		}
+		if !bytes.Equal(encodeBlock(b), enc) {
+			w.violate("C11", "block-encode-nondeterministic", fmt.Sprintf("encoding block %s twice gave different bytes", short(b.ID())))
+		}
 		if db.ID() != b.ID() {
 			w.violate("C18", "block-id-after-roundtrip", fmt.Sprintf("block %s has ID %s after decode(encode())", short(b.ID()), short(db.ID())))
 		}
 		if b.V2 != nil && len(b.V2.Transactions) > 0 {
 			w.stats.Inc("probe.wire.multiproof")
+			if b.V2.Commitment != db.V2.Commitment {
+				w.violate("C18", "commitment-after-roundtrip", fmt.Sprintf("block %s: commitment changed by the multiproof round trip", short(b.ID())))
+			}
 			if !bytes.Equal(fullBlockBytes(db), fullBlockBytes(b)) {
-				// find the first differing proof for the report
 				detail := "transactions differ"
 				for i := range b.V2.Transactions {
 					if i < len(db.V2.Transactions) && !bytes.Equal(fullTxnBytes(db.V2.Transactions[i]), fullTxnBytes(b.V2.Transactions[i])) {
 						detail = fmt.Sprintf("v2 transaction %d differs after the multiproof round trip", i)
 						var la, lb []string
-						v2Parents(&b.V2.Transactions[i], func(se *types.StateElement) { la = append(la, fmt.Sprintf("%d/%d", se.LeafIndex, len(se.MerkleProof))) })
-						v2Parents(&db.V2.Transactions[i], func(se *types.StateElement) { lb = append(lb, fmt.Sprintf("%d/%d", se.LeafIndex, len(se.MerkleProof))) })
+						v2Parents(&b.V2.Transactions[i], func(se *types.StateElement) {
+							la = append(la, fmt.Sprintf("%d/%d", se.LeafIndex, len(se.MerkleProof)))
+						})
+						v2Parents(&db.V2.Transactions[i], func(se *types.StateElement) {
+							lb = append(lb, fmt.Sprintf("%d/%d", se.LeafIndex, len(se.MerkleProof)))
+						})
 						detail += fmt.Sprintf(" (leaf/prooflen before %v, after %v)", la, lb)
 						break
 					}
 				}
 				w.violate("C18", "multiproof-roundtrip", fmt.Sprintf("block %s at height %d: %s", short(b.ID()), b.V2.Height, detail))
 			}
+			// duplicate leaves: several inputs sharing one parent proof element
+			seen := map[uint64]int{}
+			for i := range b.V2.Transactions {
+				v2Parents(&b.V2.Transactions[i], func(se *types.StateElement) {
+					if se.LeafIndex != types.UnassignedLeafIndex {
+						seen[se.LeafIndex]++
+					}
+				})
+			}
+			for _, c := range seen {
+				if c > 1 {
+					w.stats.Inc("reach.multiproof-duplicate-leaf")
+					break
+				}
+			}
 		}
+		if w.tape.Choose(w.wireRate()) != 0 {
+			return
+		}
+		// RefWire: byte layout by definition (C11), IDs by definition (C12)
+		var rw ref.W
+		rw.Header(b.Header())
+		var hb bytes.Buffer
+		he := types.NewEncoder(&hb)
+		b.Header().EncodeTo(he)
+		he.Flush()
+		if !bytes.Equal(rw.B, hb.Bytes()) {
+			w.violate("C11", "refwire-header", fmt.Sprintf("block %s: header bytes differ from the specified layout", short(b.ID())))
+		}
+		if ref.HeaderID(b.Header()) != b.ID() {
+			w.violate("C12", "refwire-block-id", fmt.Sprintf("block %s: ID differs from the hash of the specified header layout", short(b.ID())))
+		}
+		if b.V2 == nil {
+			var vb ref.W
+			vb.V1Block(b)
+			var lb bytes.Buffer
+			le := types.NewEncoder(&lb)
+			types.V1Block(b).EncodeTo(le)
+			le.Flush()
+			if !bytes.Equal(vb.B, lb.Bytes()) {
+				w.violate("C11", "refwire-v1-block", fmt.Sprintf("block %s: v1 block bytes differ from the specified layout", short(b.ID())))
+			}
+		}
+		for i, t := range b.Transactions {
+			w.wireV1Txn(t, fmt.Sprintf("block %s txn %d", short(b.ID()), i))
+		}
+		for i, t := range b.V2Transactions() {
+			w.wireV2Txn(t, fmt.Sprintf("block %s v2 txn %d", short(b.ID()), i))
+		}
+		w.truncations("block", enc, func(p []byte) error { _, err := decodeBlock(p); return err })
+	case "state":
+		s := v.(consensus.State)
+		var rw ref.W
+		rw.State(stateFields(s))
+		w.stats.Inc("probe.wire.state")
+		if !bytes.Equal(rw.B, enc) {
+			w.violate("C11", "refwire-state", fmt.Sprintf("state at height %d: bytes differ from the specified layout", s.Index.Height))
+		}
+		var ds consensus.State
+		d := types.NewBufDecoder(enc)
+		ds.DecodeFrom(d)
+		ds.Network = s.Network
+		if d.Err() != nil || !bytes.Equal(encodeState(ds), enc) {
+			w.violate("C11", "state-roundtrip", fmt.Sprintf("state at height %d does not survive decode(encode())", s.Index.Height))
+		}
+		w.truncations("state", enc, func(p []byte) error {
+			var x consensus.State
+			d := types.NewBufDecoder(p)
+			x.DecodeFrom(d)
+			return d.Err()
+		})
+	}
+}
+
+func (w *World) wireV1Txn(t types.Transaction, where string) {
+	w.stats.Inc("probe.wire.v1txn")
+	enc := encV1(t)
+	var rw ref.W
+	rw.Txn(t)
+	if !bytes.Equal(rw.B, enc) {
+		w.violate("C11", "refwire-v1-txn", where+": v1 transaction bytes differ from the specified layout")
+	}
+	var dt types.Transaction
+	d := types.NewBufDecoder(enc)
+	dt.DecodeFrom(d)
+	if d.Err() != nil || !bytes.Equal(encV1(dt), enc) {
+		w.violate("C11", "v1-txn-roundtrip", where+": v1 transaction does not survive decode(encode())")
+	}
+	if ref.TxnID(t) != t.ID() {
+		w.violate("C12", "refwire-v1-txid", where+": transaction ID differs from the hash of the signature-less layout")
+	}
+	for i := range t.SiacoinOutputs {
+		if ref.V1SiacoinOutputID(t, i) != t.SiacoinOutputID(i) {
+			w.violate("C12", "refwire-v1-output-id", where+": siacoin output ID differs from its definition")
+		}
+	}
+	for i := range t.SiafundOutputs {
+		if ref.V1SiafundOutputID(t, i) != t.SiafundOutputID(i) {
+			w.violate("C12", "refwire-v1-output-id", where+": siafund output ID differs from its definition")
+		}
+	}
+	for i := range t.FileContracts {
+		if ref.V1FileContractID(t, i) != t.FileContractID(i) {
+			w.violate("C12", "refwire-v1-contract-id", where+": contract ID differs from its definition")
+		}
+		id := t.FileContractID(i)
+		if ref.V1ProofOutputID(id, true, 1) != id.ValidOutputID(1) || ref.V1ProofOutputID(id, false, 0) != id.MissedOutputID(0) {
+			w.violate("C12", "refwire-v1-proof-output-id", where+": proof output ID differs from its definition")
+		}
+	}
+	for _, in := range t.SiafundInputs {
+		if ref.V1ClaimID(in.ParentID) != in.ParentID.ClaimOutputID() {
+			w.violate("C12", "refwire-v1-claim-id", where+": claim output ID differs from its definition")
+		}
+	}
+	if len(enc) < 3000 {
+		w.truncations("v1 transaction", enc, func(p []byte) error {
+			var x types.Transaction
+			d := types.NewBufDecoder(p)
+			x.DecodeFrom(d)
+			return d.Err()
+		})
+	}
+}
+
+func (w *World) wireV2Txn(t types.V2Transaction, where string) {
+	w.stats.Inc("probe.wire.v2txn")
+	enc := fullTxnBytes(t)
+	var rw ref.W
+	rw.V2Txn(t)
+	if !bytes.Equal(rw.B, enc) {
+		w.violate("C11", "refwire-v2-txn", where+": v2 transaction bytes differ from the specified layout")
+	}
+	var dt types.V2Transaction
+	d := types.NewBufDecoder(enc)
+	dt.DecodeFrom(d)
+	if d.Err() != nil || !bytes.Equal(fullTxnBytes(dt), enc) {
+		w.violate("C11", "v2-txn-roundtrip", where+": v2 transaction does not survive decode(encode())")
+	}
+	txid := t.ID()
+	if ref.V2TxnID(t) != txid {
+		w.violate("C12", "refwire-v2-txid", where+": v2 transaction ID differs from the hash of the specified semantic layout")
+	}
+	if dt.ID() != txid {
+		w.violate("C12", "v2-txid-after-roundtrip", where+": v2 transaction ID changes across decode(encode())")
+	}
+	for i := range t.SiacoinOutputs {
+		if ref.V2SiacoinOutputID(txid, i) != t.SiacoinOutputID(txid, i) {
+			w.violate("C12", "refwire-v2-output-id", where+": siacoin output ID differs from its definition")
+		}
+	}
+	for i := range t.SiafundOutputs {
+		if ref.V2SiafundOutputID(txid, i) != t.SiafundOutputID(txid, i) {
+			w.violate("C12", "refwire-v2-output-id", where+": siafund output ID differs from its definition")
+		}
+	}
+	for i := range t.FileContracts {
+		if ref.V2FileContractID(txid, i) != t.V2FileContractID(txid, i) {
+			w.violate("C12", "refwire-v2-contract-id", where+": contract ID differs from its definition")
+		}
+	}
+	for i := range t.Attestations {
+		if ref.V2AttestationID(txid, i) != t.AttestationID(txid, i) {
+			w.violate("C12", "refwire-v2-attestation-id", where+": attestation ID differs from its definition")
+		}
+	}
+	for _, in := range t.SiafundInputs {
+		if ref.V2ClaimID(in.Parent.ID) != in.Parent.ID.V2ClaimOutputID() {
+			w.violate("C12", "refwire-v2-claim-id", where+": claim output ID differs from its definition")
+		}
+	}
+	for _, r := range t.FileContractResolutions {
+		id := r.Parent.ID
+		if ref.V2ContractOutputID(id, false) != id.V2RenterOutputID() || ref.V2ContractOutputID(id, true) != id.V2HostOutputID() || ref.V2RenewalID(id) != id.V2RenewalID() {
+			w.violate("C12", "refwire-v2-resolution-id", where+": resolution output / renewal ID differs from its definition")
+		}
+	}
+	if len(enc) < 3000 {
+		w.truncations("v2 transaction", enc, func(p []byte) error {
+			var x types.V2Transaction
+			d := types.NewBufDecoder(p)
+			x.DecodeFrom(d)
+			return d.Err()
+		})
 	}
 }
